@@ -371,6 +371,66 @@ func C12(c *fw.Ctx) {
 	objValues(c, bound)
 	scaleObjects(c)
 	objLiteralNames(c)
+	objStoreRebinding(c)
+}
+
+// objStoreRebinding: a store `T.k = V` (and `T[i] = V`) whose value expression V rebinds what the target
+// expression T names -- V is an assignment to T's variable, an assignment to the property T goes
+// through, a call that does either, a call that removes / adds a property of T's object -- writes into the
+// object T denoted before V was evaluated: every target form x every value form, then everything printed
+func objStoreRebinding(c *fw.Ctx) {
+	id, num := model.Id, model.Num
+	mkNode := func(v float64) *model.N { return model.Obj([]string{"val", "next"}, []*model.N{num(v), model.Nil()}) }
+	targets := []struct {
+		name string
+		mk   func() *model.N
+	}{
+		{"variable", func() *model.N { return id("t") }},
+		{"property", func() *model.N { return model.Prop(id("q"), "tail") }},
+		{"element", func() *model.N { return model.Idx(id("ar"), num(0)) }},
+		{"call-result", func() *model.N { return model.CallN("cur") }},
+		{"grouped", func() *model.N { return model.Grp(id("t")) }},
+	}
+	values := []struct {
+		name string
+		mk   func() *model.N
+	}{
+		{"plain", func() *model.N { return mkNode(2) }},
+		{"rebind-variable", func() *model.N { return model.Asg("t", mkNode(2)) }},
+		{"rebind-property", func() *model.N { return model.PAsg(id("q"), "tail", mkNode(2)) }},
+		{"rebind-element", func() *model.N { return model.IAsg(id("ar"), num(0), mkNode(2)) }},
+		{"rebind-all-by-call", func() *model.N { return model.CallN("advance") }},
+		{"delete-by-call", func() *model.N { return model.CallN("strip") }},
+		{"grouped-rebind", func() *model.N { return model.Grp(model.Asg("t", mkNode(2))) }},
+	}
+	for _, tg := range targets {
+		for _, vl := range values {
+			for form := 0; form < 2; form++ {
+				if !c.Mine() {
+					continue
+				}
+				prog := []*model.N{
+					model.Var("first", mkNode(1)),
+					model.Var("t", id("first")),
+					model.Var("q", model.Obj([]string{"tail"}, []*model.N{id("first")})),
+					model.Var("ar", model.Arr(id("first"))),
+					model.Fun("cur", nil, model.Return(id("t"))),
+					model.Fun("advance", nil, model.Var("n", mkNode(3)), model.ExprS(model.Asg("t", id("n"))), model.ExprS(model.PAsg(id("q"), "tail", id("n"))), model.ExprS(model.IAsg(id("ar"), num(0), id("n"))), model.Return(id("n"))),
+					model.Fun("strip", nil, model.ExprS(model.Asg("t", model.CallN(model.BiDelete, id("t"), model.Str("next")))), model.Return(num(9))),
+				}
+				if form == 0 {
+					prog = append(prog, model.ExprS(model.PAsg(tg.mk(), "next", vl.mk())))
+				} else {
+					prog = append(prog, model.Print(model.PAsg(tg.mk(), "next", vl.mk())))
+				}
+				prog = append(prog, model.Print(id("first")), model.Print(id("t")), model.Print(id("q")), model.Print(id("ar")),
+					model.Print(model.Bin("==", id("first"), id("t"))))
+				judge(c, prog, judgeOpts{SigPrefix: "store-value-rebinds-target|" + tg.name + "|" + vl.name})
+				c.R.States++
+				c.R.Transitions++
+			}
+		}
+	}
 }
 
 // objLiteralNames: the value expressions of a literal are ordinary expressions of the enclosing scope:
